@@ -261,7 +261,8 @@ EXTRA12 = {
  "C10": " Round 12: Cell.CapBound covers the margin Cell.ContainsPoint accepts (D64 repaired); Cell.RectBound's and Cap.RectBound's missing allowances are known findings (D65, D66).",
  "C12": " Round 12: Cell.CapBound covers the margin Cell.ContainsPoint accepts (D64 repaired); Cell.RectBound's missing allowance for it is a known finding (D65).",
  "C15": " Round 12: a decoder compares each count with the limits its own encoder enforces.",
- "C17": " Round 12: no primitive of edge_distances.go takes the plain cross product of two of its point arguments (PointCross is the robust normal).",
+ "C17": " Round 12: no primitive of edge_distances.go takes the plain cross product of two of its point arguments (PointCross is the robust normal); UpdateMaxDistance gates its antipode refinement on the larger endpoint distance.",
+ "C20": " Round 12: the Mercator inverse guards its quotient with a test of the overflowing exponential itself.",
  "C19": " Round 12: Cap.Complement rounds its radius outward (D63 repaired).",
 }
 
